@@ -1,6 +1,6 @@
 (* C18 — property statements only. Every theorem is closed by a lemma of
    Lemmas.v and followed by Print Assumptions. *)
-From Errors Require Import Model Lemmas.
+From Errors Require Import Model Lemmas Heap HeapLemmas.
 
 (* Merging gives the same result however the merges are grouped: any two merge
    trees over the same sequence of original errors yield the same value (name,
@@ -88,6 +88,39 @@ Print Assumptions grpc_code_table.
 Theorem grpc_error_roundtrip c : core_of_resp (resp_of_core c) = drop_field c.
 Proof. exact (grpc_roundtrip c). Qed.
 Print Assumptions grpc_error_roundtrip.
+
+(* Histories of merges over error VARIABLES (MergeErrors updates its first argument in
+   place, so an error already merged into another one can be merged into again): after
+   ANY sequence of merges, every object's history consists of original errors only (an
+   entry never shows a merged message or name), its message is the concatenation of its
+   history's messages and its flags are their conjunctions. *)
+Theorem histories_keep_originals_unchanged st0 ops :
+  unmerged st0 ->
+  Forall (fun r => match r with RObj n | RWrap n => n < List.length (heap st0) | _ => True end) (vars st0) ->
+  Forall (obj_ok (originals st0)) (heap (run ops st0)).
+Proof. exact (histories_keep_originals st0 ops). Qed.
+Print Assumptions histories_keep_originals_unchanged.
+
+(* the flags the generated client derives from a status are those the server-side table
+   encodes in it: for every error core, whatever its flags *)
+Theorem client_flags_follow_status_table c :
+  client_flags (http_status c) =
+    if String.eqb (cname c) "unsupported_media_type" then (false, false, false)
+    else if cfault c then (false, false, true)
+    else (ctimeout c, ctemporary c, false).
+Proof.
+  unfold http_status, unsupported_media_type.
+  destruct (String.eqb (cname c) "unsupported_media_type"), (cfault c), (ctimeout c), (ctemporary c); reflexivity.
+Qed.
+Print Assumptions client_flags_follow_status_table.
+
+Example history_reuse_example :
+  (* all := Merge(a, b); then Merge(b, c): all's history still shows b's own message *)
+  let mk n m := {| cur := {| cname := n; cid := ""; cfield := None; cmsg := m; ctimeout := false; ctemporary := false; cfault := false |}; hist := []; causes := [] |} in
+  let st0 := {| heap := [mk "a" "ma"; mk "b" "mb"; mk "c" "mc"]; vars := [RObj 0; RObj 1; RObj 2; RNil] |} in
+  let st := run [OMerge 3 0 1; OMerge 1 1 2] st0 in
+  map cmsg (history (get_obj (heap st) 0)) = ["ma"; "mb"] /\ cmsg (cur (get_obj (heap st) 1)) = "mb; mc".
+Proof. vm_compute. split; reflexivity. Qed.
 
 (* non-vacuity: a tree with three non-nil originals, one nil, two groupings *)
 Example grouping_example :
